@@ -40,7 +40,7 @@ def run(ck):
     if d["rc"] != 0:
         raise vlib.InfraError("driver failed rc=%s %s" % (d["rc"], d["err"][-1500:]))
     ck.ev.extra["model_cells_replayed"] = len(sel)
-    ck.trace("model-cells", "Trace_Grid", "Trace.cfg", t1, nchunks=48,
+    ck.trace("model-cells", "Trace_Grid", "Trace.cfg", t1, nchunks=16,
              what="all nine disk/ring functions + areNeighborCells for every cell of the model graph r<=2 (quick: all of r<=1, "
                   "a quarter of r=2), k<=2")
     # 3. code -> model: strata at r = 3..15, large k at r = 0,1
@@ -48,7 +48,7 @@ def run(ck):
     d = vlib.run_driver(drv, ["strata", ck.tier, ck.seed, t2])
     if d["rc"] != 0:
         raise vlib.InfraError("driver failed rc=%s %s" % (d["rc"], d["err"][-1500:]))
-    ck.trace("strata", "Trace_Grid", "Trace.cfg", t2, nchunks=48,
+    ck.trace("strata", "Trace_Grid", "Trace.cfg", t2, nchunks=16,
              what="pentagon k-disks, icosahedron-edge cells and random cells at r=3..15, k<=5; k up to 60 at r<=1")
     ck.ev.assumptions += ["TLC 1.8 / JVM", "hand transcription of h3NeighborRotations in H3Grid.tla (checked: whole-grid "
                           "invariants and counts; bound to the code by every validated event)",
